@@ -229,6 +229,40 @@ def rule_arithmetic(ctx, rules=('R13.3', 'R13.4', 'R13.5', 'R13.8')):
     ctx.floor('R13.5', n, 32, 'operator x operand-kind combinations')
 
 
+def rule_broadcast(ctx, rule='R13.b'):
+    """out-of-place operators broadcast a length-1 left operand (the NonSpatial density arrays) against a full-length right
+    operand, as the per-matrix operation does; an implementation that routes them through an in-place ufunc cannot"""
+    cls = ctx.prog.cls(MA)
+    n = 0
+    # broadcasting: a length-1 left operand (the density arrays) combined out of place with a full-length right operand
+    for name, (build, inplace) in sorted(BIN.items()):
+        m = cls.find_method(name)
+        if m is None or inplace or 'matmul' in name:
+            continue
+        construct = '%s.%s' % (MA, name)
+        for kind in ('MatrixArray', 'ndarray'):
+            n += 1
+            try:
+                ip = _ip(ctx.prog)
+                a1 = W.matrixarray(ip, 'A1', 'NonSpatial', origin='self', kind='mat1')
+                other, oterm = [(o, t) for k, o, t in _others(ip) if k == kind][0]
+                res = _call(ip, a1, name, [other])
+                t = W.attr_term(ip, res.attrs.get('data')) if isinstance(res, Obj) else None
+                want = build(N.sym('A1'), oterm)
+                if t is None or P.is_pw(t) or not t.equals(want):
+                    ctx.violation(rule, construct, 'broadcast:' + kind, 'length-1 left operand, %s right operand: result data is %s, '
+                                  'expected %s' % (kind, P.show(t) if t is not None else res, N.show(want)), m.loc())
+                else:
+                    ctx.holds(rule, construct, 'length-1 left operand broadcasts against a full-length %s' % kind, m.loc(),
+                              key='broadcast:' + kind)
+            except Raised as e:
+                ctx.violation(rule, construct, 'broadcast:' + kind, 'a length-1 left operand (e.g. a density array) with a full-length '
+                              '%s right operand raises %s: %s' % (kind, e.exc, e.msg), m.loc())
+            except Unsupported as e:
+                ctx.undecided(rule, construct, 'length-1 left operand, %s: %s' % (kind, e), m.loc())
+    ctx.floor(rule, n, 8, 'out-of-place operator x full-length operand kind')
+
+
 def rule_dot_invert(ctx, rule='R13.6'):
     cls = ctx.prog.cls(MA)
     for inplace in (False, True):
@@ -282,16 +316,43 @@ def rule_dot_invert(ctx, rule='R13.6'):
             else:
                 ctx.holds(rid, construct, 'inplace=%s: data == %s, aliasing discipline respected' % (inplace, N.show(want)),
                           m.loc(), key='inplace=%s' % inplace, sample={'member': name, 'inplace': inplace, 'data': N.show(t)})
-    # get_copy
+
+
+def rule_get_copy(ctx, rule='R13.3'):
+    cls = ctx.prog.cls(MA)
+    # get_copy: for a receiver in each of the three spaces the copy owns fresh data equal to self.data and carries the same
+    # space flag, types, rank and length
     m = cls.find_method('get_copy')
-    ip = _ip(ctx.prog)
-    a, b = _pair(ip)
-    res = _call(ip, a, 'get_copy', [])
-    rdata = res.attrs.get('data')
-    if res is a or rdata is a.attrs['data'] or not isinstance(rdata, Arr) or not rdata.fresh or not rdata.t.equals(A):
-        ctx.violation('R13.3', MA + '.get_copy', 'copy', 'get_copy does not return an independent copy of the data', m.loc())
-    else:
-        ctx.holds('R13.3', MA + '.get_copy', 'fresh data array equal to self.data, same space/types', m.loc())
+    for sp_name in SPACES:
+        try:
+            ip = _ip(ctx.prog)
+            a, b = _pair(ip, sp_name)
+            res = _call(ip, a, 'get_copy', [])
+            bad = []
+            if not isinstance(res, Obj) or res.cls is not a.cls:
+                bad.append('get_copy returns %r, not a MatrixArray' % (res,))
+            else:
+                rdata = res.attrs.get('data')
+                if res is a or rdata is a.attrs['data'] or not isinstance(rdata, Arr) or not rdata.fresh or not rdata.t.equals(A):
+                    bad.append('get_copy does not return an independent copy of the data')
+                sp = res.attrs.get('space')
+                if not (isinstance(sp, Const) and sp.v == a.attrs['space'].v):
+                    bad.append('the copy of a %s array is flagged %s' % (sp_name, getattr(sp, 'v', sp)))
+                ty = res.attrs.get('types')
+                if not isinstance(ty, Types) or getattr(ty, 'partial', None):
+                    bad.append('types of the copy are %r, not the types of the original' % (ty,))
+                for attr in ('rank', 'length'):
+                    t0, t1 = W.attr_term(ip, a.attrs.get(attr)), W.attr_term(ip, res.attrs.get(attr))
+                    if t0 is None or t1 is None or P.is_pw(t1) or not t0.equals(t1):
+                        bad.append('%s of the copy is %s' % (attr, P.show(t1) if t1 is not None else res.attrs.get(attr)))
+        except (Unsupported, Raised) as e:
+            ctx.undecided(rule, MA + '.get_copy', 'space=%s: %s' % (sp_name, e), m.loc())
+            continue
+        if bad:
+            ctx.violation(rule, MA + '.get_copy', 'copy:' + sp_name, '; '.join(bad), m.loc())
+        else:
+            ctx.holds(rule, MA + '.get_copy', 'space=%s: fresh data array equal to self.data, same space/types/rank/length' % sp_name,
+                      m.loc(), key='copy:' + sp_name)
 
 
 def rule_items(ctx, rule='R13.9'):
@@ -469,7 +530,7 @@ def rule_history(ctx, rule='R13.h'):
             construct = '%s.%s' % (MA, name)
             tag = 'receiver %s' % rcls.name
 
-            def run(preset, name=name, rcls=rcls):
+            def run(preset, name=name, rcls=rcls, mutate=False):
                 ip = _ip(ctx.prog)
                 ip.preset = list(preset)
                 a = W.matrixarray(ip, 'A', 'Real', origin='self')
@@ -479,10 +540,15 @@ def rule_history(ctx, rule='R13.h'):
                 nargs = 0 if name in ('invert', 'get_copy') else 1
                 r1 = _call(ip, a, name, [b1][:nargs])
                 t1 = W.attr_term(ip, r1.attrs.get('data')) if isinstance(r1, Obj) else None
+                if mutate:
+                    # the caller changed the contents of the left operand in place (A *= 2, A[t1,t2] = ...): same array
+                    # object, new values
+                    ip.declare('A2', 'tensor', symmetric=True)
+                    a.attrs['data'].t = N.sym('A2')
                 r2 = _call(ip, a, name, [b2][:nargs])
-                return ip, {'a': a, 'b1': b1, 'b2': b2, 'r1': r1, 'r2': r2, 't1': t1}
+                return ip, {'a': a, 'b1': b1, 'b2': b2, 'r1': r1, 'r2': r2, 't1': t1, 'left': N.sym('A2') if mutate else A}
             try:
-                worlds = explore(run)
+                worlds = explore(run) + explore(lambda preset: run(preset, mutate=True))
             except (Unsupported, Raised) as e:
                 ctx.undecided(rule, construct, '%s: %s' % (tag, e), m.loc())
                 continue
@@ -502,10 +568,12 @@ def rule_history(ctx, rule='R13.h'):
                 if w['t1'] is not None and t1_now is not None and not P.is_pw(t1_now) and not t1_now.equals(w['t1']):
                     bad.append('the first result changes when the member is called again: %s becomes %s'
                                % (N.show(w['t1'])[:80], N.show(t1_now)[:80]))
-                want2 = build(A, B)
+                want2 = build(w['left'], B)
                 t2 = W.attr_term(ip, d2)
                 if t2 is None or P.is_pw(t2) or not t2.equals(want2):
-                    bad.append('second call returns %s, expected %s' % (P.show(t2)[:120] if t2 is not None else d2, N.show(want2)))
+                    bad.append('second call%s returns %s, expected %s' % (
+                        ' (after the left operand was modified in place)' if w['left'] is not A else '',
+                        P.show(t2)[:120] if t2 is not None else d2, N.show(want2)))
                 held = _heap_of(a) | _heap_of(w['b1']) | _heap_of(w['b2'])
                 for which, root in (('first', root1), ('second', root2)):
                     if isinstance(root, Arr) and id(root) in held:
